@@ -49,6 +49,16 @@ fn fix_afi(mut v: serde_json::Value) -> serde_json::Value {
     v
 }
 
+/// partial_cmp, the four comparison operators and == of the NLRI proper agree with its cmp
+fn inner_ok<T: Ord + PartialOrd + PartialEq>(a: &T, b: &T) -> bool {
+    let c = a.cmp(b);
+    #[allow(clippy::nonminimal_bool)]
+    let ok = a.partial_cmp(b) == Some(c) && b.partial_cmp(a) == Some(c.reverse())
+        && (a == b) == (c == Ordering::Equal) && (a != b) == (c != Ordering::Equal)
+        && (a < b) == (c == Ordering::Less) && (a >= b) == (c != Ordering::Less);
+    ok
+}
+
 type Typed = fn(&Vec<u8>, &Vec<u8>) -> Option<String>;
 /// two or three values of one variant, each given as the JSON serde builds it from
 type Built = fn(&[String]) -> String;
@@ -68,6 +78,10 @@ macro_rules! built {
                 let pc = x.partial_cmp(y) == Some(c) && y.partial_cmp(x) == Some(r) && (x != y) == !eq && (y == x) == eq
                     && (x < y) == (c == Ordering::Less) && (x <= y) == (c != Ordering::Greater)
                     && (x > y) == (c == Ordering::Greater) && (x >= y) == (c != Ordering::Less)
+                    // the NLRI proper (AfiSafiNlri::nlri(): MplsNlri, MplsVpnNlri, RouteTargetNlri, FlowSpecNlri, EvpnNlri,
+                    // VplsNlri, Prefix): its own partial_cmp / == against its own cmp (tie coverage: the hand-written
+                    // partial_cmp of these types is reached through no other operator)
+                    && inner_ok(x.nlri(), y.nlri())
                     // the same two values inside the enum
                     && (es[0] == es[1]) == eq && es[0].cmp(&es[1]) == c && es[1].cmp(&es[0]) == r
                     && es[0].partial_cmp(&es[1]) == Some(c) && (h64(&es[0]) == h64(&es[1])) == hs;
@@ -94,7 +108,8 @@ macro_rules! typed {
             #[allow(clippy::nonminimal_bool)]
             let pc = x.partial_cmp(&y) == Some(c) && y.partial_cmp(&x) == Some(r) && (x != y) == !eq && (y == x) == eq
                 && (x < y) == (c == Ordering::Less) && (x <= y) == (c != Ordering::Greater)
-                && (x > y) == (c == Ordering::Greater) && (x >= y) == (c != Ordering::Less);
+                && (x > y) == (c == Ordering::Greater) && (x >= y) == (c != Ordering::Less)
+                && inner_ok(x.nlri(), y.nlri());
             let hs = h64(&x) == h64(&y);
             // the same bytes held in other buffer types
             let ab = bytes::Bytes::copy_from_slice(a);
